@@ -53,6 +53,21 @@ Theorem sorted_walk_collision_refuted :
 Proof. exact sorted_walk_collision_refuted_lemma. Qed.
 Print Assumptions sorted_walk_collision_refuted.
 
+(* ---- class SortedCustomComparator ---- *)
+Theorem folded_comparator_refuted :
+  exists (fold : Z -> Z) (order1 order2 : list (Z * Z)),
+    Permutation order1 order2 /\ NoDup (map fst order1) /\
+    folded_sort_walk fold order1 <> folded_sort_walk fold order2.
+Proof. exact folded_comparator_refuted_lemma. Qed.
+Print Assumptions folded_comparator_refuted.
+
+Theorem injective_fold_indep :
+  forall (fold : Z -> Z), (forall a b, fold a = fold b -> a = b) ->
+  forall order1 order2 : list (Z * Z), Permutation order1 order2 -> NoDup (map fst order1) ->
+    folded_sort_walk fold order1 = folded_sort_walk fold order2.
+Proof. exact injective_fold_indep_lemma. Qed.
+Print Assumptions injective_fold_indep.
+
 (* ---- class CommutativeFill ---- *)
 Theorem commutative_fill_indep :
   forall (K V K2 V2 : Type) (k2_eqb : K2 -> K2 -> bool),
@@ -177,6 +192,9 @@ Example fill_example :
 Proof. vm_compute. reflexivity. Qed.
 Example a_new_unsorted_walk_is_rejected :
   site_ok (mkSite "hashutils.go" "SexpHash.SexpString" 0 "hash.Map" OrderObservable false []) = false.
+Proof. vm_compute. reflexivity. Qed.
+Example a_sorted_walk_with_a_custom_comparator_is_rejected :
+  site_ok (mkSite "jsonmsgp.go" "makeSortedSlicesFromMap" 0 "m" SortedCustomComparator true []) = false.
 Proof. vm_compute. reflexivity. Qed.
 Example a_sorted_walk_with_stateful_body_is_rejected :
   site_ok (mkSite "scopes.go" "Scope.ShowNew" 0 "scop.Map" SortedAfter false ["SexpString"]) = false.
